@@ -94,6 +94,13 @@ class ImplicitIter:
             # calculate complete Jacobian matrix ``Ac```
             tds.Ac = tds.method.calc_jac(tds, gxs, gys)
 
+            # `Ac` depends on the step size. Solvers that cache the numeric factorization (SciPy)
+            # need a new one when the step size has changed since it was computed, even if
+            # the Jacobians were not updated. SuiteSparse solvers refactorize at each call.
+            if tds.h != getattr(tds, '_h_factorized', None):
+                tds.solver.worker.new_A = True
+                tds._h_factorized = tds.h
+
             # equation `tds.qg[:dae.n] = 0` is the implicit form of differential equations using ITM
             tds.qg[:dae.n] = tds.method.calc_q(dae.x, dae.f, dae.Tf, tds.h, tds.x0, tds.f0)
 
